@@ -190,7 +190,7 @@ pub fn run(ctx: &mut Ctx) {
     // the empty argument at every position of short vectors
     ctx.family("empty", 32, |ctx, _rng, i| {
         let n = 1 + (i % 5) as usize;
-        let mut v = vec!["prog".to_string()];
+        let mut v = vec![if i % 4 == 3 { String::new() } else { "prog".to_string() }];
         for j in 0..n {
             v.push(if (i >> j) & 1 == 1 || j as u64 == i % n as u64 { String::new() } else { format!("a{}", j) });
         }
@@ -202,9 +202,7 @@ pub fn run(ctx: &mut Ctx) {
     ctx.family("random", n, |ctx, rng, i| {
         let nargs = rng.below(21);
         let mut v = vec![if rng.chance(300) { rand_word(rng, 12) } else { "prog".to_string() }];
-        if v[0].is_empty() {
-            v[0] = "p".into();
-        }
+        // (an empty program name cannot be run, but it is a word of the command line like any other)
         for _ in 0..nargs {
             let w = match rng.below(8) {
                 0 => String::new(),
